@@ -16,6 +16,8 @@ use std::sync::mpsc::sync_channel;
 use std::sync::{Arc, Mutex};
 
 pub struct Tables {
+    pub raw_cfgs: Vec<Value>,
+    pub raw_syms: Value,
     pub lo: u64,
     pub cfgs: Vec<CfgSpec>,
     pub syms: Vec<char>,
@@ -23,13 +25,17 @@ pub struct Tables {
 
 pub fn load_tables(path: &str) -> Tables {
     let v: Value = serde_json::from_str(&std::fs::read_to_string(path).expect("tables file")).expect("tables json");
+    tables_from(&v)
+}
+
+pub fn tables_from(v: &Value) -> Tables {
     let syms: Vec<char> = v["syms"].as_array().unwrap().iter().map(|s| sym_char(s["ch"].as_str().unwrap())).collect();
     for (s, c) in v["syms"].as_array().unwrap().iter().zip(syms.iter()) {
         assert_eq!(s["n"].as_u64().unwrap() as usize, c.len_utf8(), "symbol width");
         assert_eq!(s["nl"].as_bool().unwrap(), *c == '\n', "symbol nl flag");
     }
     let cfgs = v["cfgs"].as_array().unwrap().iter().map(|c| CfgSpec::from_json(c).expect("cfg")).collect();
-    Tables { lo: v["lo"].as_u64().unwrap(), cfgs, syms }
+    Tables { raw_cfgs: v["cfgs"].as_array().unwrap().clone(), raw_syms: v["syms"].clone(), lo: v["lo"].as_u64().unwrap(), cfgs, syms }
 }
 
 pub fn unescape_tlc(line: &str) -> Option<String> {
@@ -131,6 +137,8 @@ fn run_behaviour(t: &Tables, hist: &[Value]) -> (u64, bool, Option<Value>) {
                 Some(json!({
                     "kind": "replay", "step": step, "difference": d, "configurations": cfgs, "inputs": inputs,
                     "calls_specified": hist, "calls_observed": observed,
+                    "tables": {"lo": 1, "syms": t.raw_syms, "cfgs": hist.iter().filter(|x| x["op"] == "build")
+                        .map(|x| t.raw_cfgs.get((x["cfg"].as_u64().unwrap() - t.lo) as usize).cloned().unwrap_or(Value::Null)).collect::<Vec<_>>()},
                 })),
             );
         }
@@ -280,4 +288,30 @@ pub fn main(args: &[String]) -> i32 {
         return 2;
     }
     0
+}
+
+/// `replay1 <violation file>`: re-runs the behaviour of a violation report against the code.
+pub fn main_one(args: &[String]) -> i32 {
+    let v: Value = serde_json::from_str(&std::fs::read_to_string(&args[0]).expect("file")).expect("json");
+    let t = tables_from(&v["tables"]);
+    // the file's tables hold exactly the configurations built, in order: renumber the builds
+    let mut hist: Vec<Value> = v["calls_specified"].as_array().unwrap().clone();
+    let mut n = 0;
+    for e in hist.iter_mut() {
+        if e["op"] == "build" {
+            n += 1;
+            e["cfg"] = json!(n);
+        }
+    }
+    let (_, _, bad) = run_behaviour(&t, &hist);
+    match bad {
+        Some(b) => {
+            println!("REPRODUCED at step {}: {}", b["step"], b["difference"]);
+            1
+        }
+        None => {
+            println!("NOT REPRODUCED: the code now agrees with this behaviour");
+            0
+        }
+    }
 }
